@@ -8,7 +8,7 @@ RULE = ("C03: the verdict of every run of the real runtime is judged twice: agai
 
 
 def run(tier):
-    res = run_prog_check("C03", PROPS, tier, ["c03", "objects:C03", "sync2:C03"], n_quick=4000, n_thorough=80000, rule=RULE, scenarios=(2500, 40000), focus=["park", "condvar", "barrier", "mutex", "rwlock", "sem", "atomic", "chan"], focus_n=(2000, 40000), exhaustive=["condvar", "park", "chan", "sem", "mutex"], exh_n=(50, 500))
+    res = run_prog_check("C03", PROPS, tier, ["c03", "objects:C03:C03x", "sync2:C03"], n_quick=4000, n_thorough=80000, rule=RULE, scenarios=(2500, 40000), focus=["park", "condvar", "barrier", "mutex", "rwlock", "sem", "atomic", "chan"], focus_n=(2000, 40000), exhaustive=["condvar", "park", "chan", "sem", "mutex"], exh_n=(50, 500))
     if isinstance(res, int):
         return res
     ctx, cases, mo, io = res
